@@ -73,8 +73,12 @@ def judge(case):
             if (a, b) not in legal:
                 out.bad("frame-boundary-moved",
                         f"{name}: pair delivered from [{a},{b}), frames lie at {sorted(legal)}")
-        want = [(a, b) for a, b, i in bounds if _delivered(i["kind"], v, p)]
-        got = [(a, b) for a, b, _r, _m in pairs]
+        # legal frames without a message ("short") may or may not be handed out: the property is
+        # about what happens to the OTHER frames, so they are left out of the comparison
+        shorts = {(a, b) for a, b, i in bounds if i["kind"] == "short"}
+        want = [(a, b) for a, b, i in bounds if i["kind"] != "short" and _delivered(i["kind"], v, p)]
+        got = [(a, b) for a, b, _r, _m in pairs if (a, b) not in shorts]
+        pairs = [x for x in pairs if (x[0], x[1]) not in shorts]
         if got != want:
             if v == 0 and p and len(got) < len(want):
                 sig = "validate-off-still-rejects"
@@ -114,7 +118,7 @@ def judge(case):
             for lm in (1, 2):
                 for q in (0, 1, 2):
                     shorts = {(a, b) for a, b, i in bounds if i["kind"] == "short"}
-                    on = [(a, b, r) for a, b, r, _ in results[(v, True, lm, q)][0]]
+                    on = [(a, b, r) for a, b, r, _ in results[(v, True, lm, q)][0] if (a, b) not in shorts]
                     off = [(a, b, r) for a, b, r, _ in results[(v, False, lm, q)][0] if (a, b) not in shorts]
                     if on != off:
                         out.bad("parsed-off-changes-frames",
@@ -194,7 +198,8 @@ def _cross(case, bounds, runs, out, label):
         name = (f"{case['name']}: reader(validate={v}, parsed={p}, labelmsm={lm}, quitonerror={q}) over "
                 f"{label}")
         if kinds is not None:
-            want = [x for x in base if _delivered(kinds[(x[0], x[1])], v, p)]
+            want = [x for x in base if kinds[(x[0], x[1])] != "short" and _delivered(kinds[(x[0], x[1])], v, p)]
+            got = [x for x in got if kinds.get((x[0], x[1])) != "short"]
         elif not p:
             want = base
         else:
